@@ -315,10 +315,12 @@ def build_jobs(ctx, entries):
                 jobs.append(Job(coll, algo, np, cases + extra, layout))
         else:
             for np in range(1, MAXNP + 1):
-                cases = cases_for(kinds, np, list(range(np)))
+                # all roots x all small counts; the large count at three roots
+                some = sorted(set([0, np - 1, rng.randrange(np)]))
+                cases = [c for c in cases_for(kinds, np, list(range(np))) if c[2] != large_count(c[0]) or c[1] in some]
                 extra = []
                 for k in kinds:
-                    for root in sorted(set([0, np - 1, rng.randrange(np)])):
+                    for root in some:
                         for c in (1, np + 1):
                             extra.append((k, root, c, rng.randint(1, 4)))
                             if k % 100 in REDUCING:
@@ -353,9 +355,14 @@ def explain(kind, np, root, count, ranks, bad):
 
 
 def run(ctx):
+    tm = {}
+    t = time.time()
     ctx.simgrid()
+    tm["simgrid"] = round(time.time() - t, 1)
     table, single, nbc = gencolls.generate(fw.REPO, fw.COQ)
+    t = time.time()
     ctx.prove()
+    tm["prove"] = round(time.time() - t, 1)
     prog = fw.build_smpi_prog("smpi_c29")
     entries = all_entries(table, single, nbc)
     for coll, algo, kinds in entries:
@@ -426,12 +433,16 @@ def run(ctx):
                 q = tuple(obs_line(kind, job.np, root, count, ranks))
                 q_check.setdefault(q, None)
                 todo.append(("check", q, job, i, cd, key, nontriv, sigbase, cc))
+    t = time.time()
     for qs, fn in ((q_check, "run_c29_check"), (q_barrier, "run_c29_barrier"), (q_direct, "run_c29_direct")):
         keys = list(qs.keys())
         if keys:
             ans = fw.run_model("c29", fn, [list(k) for k in keys])
             for k, a in zip(keys, ans):
                 qs[k] = a
+    tm["oracle"] = round(time.time() - t, 1)
+    tm["smpirun"] = round(t_run, 1)
+    dist["phase_wall_s"] = tm
     dist["distinct_observations_judged"] = len(q_check) + len(q_barrier)
     nsample = 0
     obliv = {}
@@ -484,6 +495,10 @@ def run(ctx):
             if kinds and (coll, algo) not in exercised:
                 ctx.mismatch("algorithm-not-exercised", "%s:%s is selectable but no case ran it" % (coll, algo), {"coll": coll, "algo": algo})
     dist["algorithms"] = len(entries)
+    sigs = {}
+    for f in ctx.failures:
+        sigs[f["sig"]] = sigs.get(f["sig"], 0) + 1
+    ctx.cov["failure_signatures"] = sigs
     ctx.cov["input_distribution"] = dist
     ctx.assumptions += [
         "collective algorithms are data-oblivious schedules of copies and operator applications (control flow depends on np, rank, root, counts, "
